@@ -10,6 +10,7 @@
 
 static long n_requests, n_level_refusals;
 static int g_reply_form;
+static KSI_Signature **g_keep_sigs;   /* when set, do_block hands the leaf signatures over instead of freeing them */
 static void handler(const unsigned char *req, size_t n, vbuf *resp, void *user) {
 	rp_req r;
 	rp_env e;
@@ -132,7 +133,7 @@ static int do_block(KSI_CTX *ctx, KSI_BlockSigner *bs, int n, unsigned seed0, in
 			if (out) { vb_put(out, lenb, 4); vb_put(out, raw, rl); }
 		}
 		KSI_free(raw);
-		KSI_Signature_free(sig);
+		if (g_keep_sigs && i < 16) g_keep_sigs[i] = sig; else KSI_Signature_free(sig);
 		KSI_DataHash_free(h);
 	}
 	if (out) {
@@ -220,6 +221,54 @@ static void run(void) {
 		KSI_CTX_free(ctx);
 		if (vf_alloc_live != 0) { vf_fail("leak", "%ld SDK allocations live after the block", vf_alloc_live); vf_alloc_live = 0; }
 		if (n == 3 && masking && meta == 1 && level == 0) vf_sample("block signer, blinding masks, metadata on every leaf, 3 leaves: 3 signatures verified (library + reference)");
+		vf_case_end(1);
+	}
+	/* the signatures outlive the signer, its handles and the document hashes: each still verifies for its own document only and still
+	 * serializes to the same bytes after everything else has been released and other hashes have been created on the context */
+	for (masking = 0; masking < 2; masking++) for (meta = 0; meta < 3; meta += 2) for (n = 1; n <= 4; n++) {
+		KSI_CTX *ctx;
+		KSI_BlockSigner *bs;
+		KSI_Signature *kept[16];
+		vbuf before;
+		size_t off = 0;
+		int i;
+		char what[64];
+		if (!vf_case_begin("bs-keep:mask%d:meta%d:n%d", masking, meta, n)) continue;
+		snprintf(what, sizeof what, "kept signatures mask%d meta%d", masking, meta);
+		memset(kept, 0, sizeof kept);
+		vb_init(&before);
+		ctx = new_ctx();
+		bs = new_signer(ctx, masking);
+		g_keep_sigs = kept;
+		do_block(ctx, bs, n, 40, meta, 0, &before, what);
+		g_keep_sigs = NULL;
+		KSI_BlockSigner_free(bs);
+		for (i = 0; i < n; i++) {
+			/* other hashes are created (and released) on the context in between */
+			KSI_DataHash *own = leaf_hash(ctx, 40u + (unsigned)i), *f1 = leaf_hash(ctx, 900u + (unsigned)i), *f2 = leaf_hash(ctx, 950u + (unsigned)i);
+			unsigned char *raw = NULL;
+			size_t rl = 0, want;
+			int r;
+			if (kept[i] == NULL) { KSI_DataHash_free(own); KSI_DataHash_free(f1); KSI_DataHash_free(f2); continue; }
+			r = KSI_Signature_verifyWithPolicy(kept[i], f2, 0, KSI_VERIFICATION_POLICY_INTERNAL, NULL);
+			if (r == KSI_OK) vf_fail("leaf-signature-verifies-foreign-document", "%s: after the signer was released the signature of leaf %d verifies for another document's hash", what, i);
+			r = KSI_Signature_verifyWithPolicy(kept[i], f1, 0, KSI_VERIFICATION_POLICY_INTERNAL, NULL);
+			if (r == KSI_OK) vf_fail("leaf-signature-verifies-foreign-document", "%s: after the signer was released the signature of leaf %d verifies for another document's hash", what, i);
+			r = KSI_Signature_verifyWithPolicy(kept[i], own, 0, KSI_VERIFICATION_POLICY_INTERNAL, NULL);
+			if (r != KSI_OK) vf_fail("leaf-signature-invalid", "%s: after the signer was released the signature of leaf %d no longer verifies for its own hash: 0x%x", what, i, r);
+			vf_count("impl_calls", 3);
+			want = off + 4 <= before.n ? ((size_t)before.p[off] << 24 | (size_t)before.p[off + 1] << 16 | (size_t)before.p[off + 2] << 8 | before.p[off + 3]) : 0;
+			if (KSI_Signature_serialize(kept[i], &raw, &rl) != KSI_OK || rl != want || off + 4 + want > before.n || memcmp(raw, before.p + off + 4, rl) != 0)
+				vf_fail("kept-signature-changed", "%s: the signature of leaf %d serializes to other bytes (%zu, before %zu) after the signer was released", what, i, rl, want);
+			off += 4 + want;
+			KSI_free(raw);
+			KSI_DataHash_free(own); KSI_DataHash_free(f1); KSI_DataHash_free(f2);
+			vf_outcome("leaf:kept-verified");
+		}
+		for (i = 0; i < n; i++) KSI_Signature_free(kept[i]);
+		vb_free(&before);
+		KSI_CTX_free(ctx);
+		if (vf_alloc_live != 0) { vf_fail("leak", "%ld SDK allocations live after the block", vf_alloc_live); vf_alloc_live = 0; }
 		vf_case_end(1);
 	}
 	/* other honest replies: aggregation chains only; a calendar chain without the (redundant) aggregation time element */
